@@ -39,7 +39,8 @@ P = {'id': 'C06',
              'tied to the existing models on canonical key/value numbers (M+S): ZiporaHashMap<String> (lookups through &str, hash_key_borrowed) and ZiporaHashMap<T> for seven rarely used type pairs - standard-storage model under a hash '
              'function given as a per-case table of what the real BuildHasher returns for the real key; GoldHashMap<T> with a DefaultHasher table; GoldHashIdx<T>, SmallMap<T>, EasyHashMap<T> by their answers. '
              'Rust generics themselves (monomorphisation, Borrow, Drop of keys/values) are not modelled',
-             'spec-only cells (direct oracle against std BTreeMap, no model comparison): ZiporaHashMap with the default hasher parameter (ahash / std RandomState, unknown seeds) and with the eighteen hash_functions.rs hashers',
+             'spec-only cells (direct oracle against std BTreeMap, no model comparison): ZiporaHashMap with the default hasher parameter (ahash / std RandomState, seeds unknown to the harness); '
+             'the eighteen hash_functions.rs hashers are compared with the model through per-case hash tables (kind 6)',
              'oracle only (no model, judged by the BTreeMap shadow inside the same histories): housekeeping calls (reserve, shrink_to_fit, revoke_deleted, set_hash_caching, set_auto_grow, '
              'set_max_load_factor, statistics, Debug), Clone / PartialEq, bulk insertion (insert_batch, extend, Extend, FromIterator), alternative lookups (get_batch, get_or_default, get_by_fast_str, '
              'is_interned), get_or_insert(_with) on absent keys, retain, alternative iteration (iter_fast, keys/values, ExactSizeIterator), every further constructor / preset / builder option, '
@@ -65,12 +66,12 @@ P = {'id': 'C06',
                'run by replaying ~1500 histories in Coq (vm_compute) under ten caller-supplied hashers, nine capacities and nine GoldHashMap configurations. Extension: get_fast_is_get / smallmap_u8_refines_map '
                '(SmallMap<u8>::get_fast, the SSE2 key search modelled lane by lane and mask bit by mask bit, returns what get returns in every reachable state; get_fast_unmasked_refuted for the code before 3fcc283), '
                'hashstr_refines_map / hashstr_counters (HashStrMap: the wrapper over a trusted std HashMap answers like a map, len <= unique_keys <= total_inserts); String-keyed and typed cells run the same models on canonical '
-               'key numbers with the real hasher tabulated per case. Only ZiporaHashMap under hashers the harness cannot mirror (random seeds, hash_functions.rs) is decided by the differential oracle alone (S-only).',
+               'key numbers with the real hasher tabulated per case. Only ZiporaHashMap under randomly seeded hashers (the default hasher parameter) is decided by the differential oracle alone (S-only).',
  'level_note': 'Trusted: Coq kernel + vm_compute; the hand-written models and their mirror of the test hashers; harness generators and the BTreeMap oracle. The theorems are about the models; keys/values are '
                'natural numbers, Rust generics (K: Hash+Eq+Clone) are not modelled.',
  'technique': 'Coq refinement proofs (invariant + simulation over all histories, hash function universally quantified): probe-path invariant + pigeonhole for the open-addressing table, chain/relink/compaction '
               'invariant for the chained table; refutation witnesses by vm_compute for the pre-fix code and the stubs; model/implementation differential check on operation histories evaluated in Coq; '
               'differential oracle (std BTreeMap) over every map type, preset and adversarial hasher, incl. an enumerated universe of all short histories over three colliding keys',
  'explanation': 'Unbounded refinement theorems for ZiporaHashMap standard storage, SmallMap (incl. the vectorised get_fast of SmallMap<u8>), GoldHashMap, EasyHashMap, GoldHashIdx and the HashStrMap wrapper (all hash functions, all histories); '
-                'String-keyed and typed cells tied to the same models; differential oracle for all of them and alone for the hashers the harness cannot mirror; '
+                'String-keyed and typed cells tied to the same models; differential oracle for all of them and alone for randomly seeded hashers; '
                 'stub storage strategies are a recorded finding.'}
